@@ -303,7 +303,7 @@ def main(chk: Check):
 
     # ------------------------------------------------------------ stream vercmp
     pool = [parse_text(s) for s in POOL_TEXT]
-    if chk.thorough or chk.fingerprint_changed:
+    if chk.thorough:
         seen = {v.key() for v in pool}
         while len(pool) < 120:
             v = gen_version(rng) if rng.random() < 0.5 else neighbour(rng, rng.choice(pool))
@@ -339,7 +339,7 @@ def main(chk: Check):
 
     vc_cases = []
     results = {}
-    full_pairs = chk.thorough or chk.fingerprint_changed
+    full_pairs = chk.thorough
     for idx, (a, ra, b, rb) in enumerate(cases):
         ta, tb = a.text(), b.text()
         if idx < n_pairs:
